@@ -348,7 +348,7 @@ c.param("cfg", k_config())
 c.param("fetch", KBool())
 c.returns(k_config())
 c.effects = _gl_effects
-c.ensures("C09._update_cfg_from_vcs.start_version_per_scope_rule", _start_clause)
+c.ensures("C09+C01+C08._update_cfg_from_vcs.start_version_per_scope_rule", _start_clause)
 c.ensures("C09._update_cfg_from_vcs.only_version_fields_change", _start_frame)
 c.ensures(
     "C09+C10._update_cfg_from_vcs.one_listing_with_cfg_scope_and_fetch_flag",
@@ -614,7 +614,7 @@ c.param("commit_message", KStr())
 c.param("tag_message", KStr())
 c.param("allow_dirty", KBool())
 c.effects = _update_effects
-c.ensures("C10+C11+C06._update.dirty_check_then_rewrite_then_commit_each_only_after_success", _update_clause(False), internal=True)
+c.ensures("C10+C11+C06+C08._update.dirty_check_then_rewrite_then_commit_each_only_after_success", _update_clause(False), internal=True)
 c.exsures(SystemExit, "C10+C11+C06._update.exit_1_keeps_phase_order_nothing_after_failure", _update_exit, internal=True)
 c.exsures(SystemExit, "C10._update.exit_status_1", lambda a, exc, cx: v_eq(exc.args[0], 1))
 for _E in (sp.CalledProcessError, OSError, version.PatternError, AssertionError, _re.error, ValueError):
@@ -774,6 +774,10 @@ def _update_return(a, res, cx):
     cs.append(v_truthy([e for e in cx.new if e[0] == "CallResult" and e[1] == "bumpver.cli._is_valid_version"][-1][2]))  # ...and passed
     # a real run did the update phase, a dry run did not
     cs.append(b_iff(len(phases) == 1, b_not(v_truthy(a.dry))))
+    # a dry run goes through everything the real run does before the update phase - in particular both
+    # message templates are rendered - so that a dry exit 0 cannot hide a failure of the real run (C13)
+    if len(_ev(cx, "FormatMsg")) != 2:
+        return False
     if phases and phases[0][1] != "return":
         return False
     return b_and(*cs)
@@ -805,9 +809,9 @@ def _update_contract():
     c.param("tag_scope", KEnum([None] + [e.value for e in config.TagScope]))
     c.param("pre_commit_hook", KOpt(KStr()))
     c.param("post_commit_hook", KOpt(KStr()))
-    c.ensures("C01+C09+C10+C12+C13.update.exit_0_only_through_gate_dry_changes_nothing_messages_rendered", _update_return, internal=True)
+    c.ensures("C01+C06+C08+C09+C10+C12+C13.update.exit_0_only_through_gate_dry_changes_nothing_messages_rendered", _update_return, internal=True)
     for E in (SystemExit, sp.CalledProcessError, OSError, version.PatternError, AssertionError, _re.error, ValueError, KeyError, IndexError, OverflowError, NotImplementedError):
-        c.exsures(E, f"C01+C10+C13.update.failure_{E.__name__}_nonzero_exit_nothing_past_the_gate", _update_raise, internal=True)
+        c.exsures(E, f"C01+C06+C10+C13.update.failure_{E.__name__}_nonzero_exit_nothing_past_the_gate", _update_raise, internal=True)
     return c
 
 
